@@ -27,6 +27,10 @@ pub enum Op {
     ClearFlags(u8, u8),
     /// CPU writes a register of *another* 8-bit timer channel (1, 2, 3): nothing of channel 0 may change
     Other(u8, u8),
+    /// CPU writes an address that only *looks* like one of channel 0's registers to a sloppy decoder (register
+    /// address + k x 2^8 / 2^16 / 2^24, or with one of the bits 8-31 flipped): refused or stored elsewhere,
+    /// nothing of channel 0 may change
+    Stray(u32, u8),
 }
 
 /// registers of the 8-bit timer channels 1-3 (same block, interleaved with channel 0's)
@@ -113,9 +117,42 @@ pub fn cleanup(emu: &mut Emu) {
 }
 
 /// execute the history on the emulator (fresh timer), one observation per op
+const SCRATCH_CODE: u32 = 0xffd100;
+
+/// one CPU byte store: through the bus (`via` 0) or as a real MOV.B R0L,<ea> instruction (1 @aa:8, 2 @aa:16,
+/// 3 @aa:24, 4 @ER1) - how a guest reaches the registers
+fn cpu_store(emu: &mut Emu, addr: u32, v: u8, via: u8) -> Result<(), String> {
+    use crate::refmodel::insn::{encode, Ea, Insn, Sz};
+    let ea = match via {
+        0 => return emu.cpu.bus.write(addr, v).map_err(|e| e.to_string()),
+        1 if addr >= 0xffff00 => Ea::A8(addr as u8),
+        2 if addr >= 0xff8000 => Ea::A16(addr as u16),
+        4 => Ea::Ind(1),
+        _ => Ea::A24(addr),
+    };
+    let code = encode(&Insn::Store { sz: Sz::B, s: 8, ea });
+    for (i, b) in code.iter().enumerate() {
+        raw_set(&mut emu.cpu.bus, SCRATCH_CODE + i as u32, *b);
+    }
+    emu.cpu.er = [v as u32, addr, 0, 0, 0, 0, 0, SCRATCH_SP];
+    emu.set_pc(SCRATCH_CODE);
+    emu.set_ccr(0x80);
+    match emu.step() {
+        EmuResult::Ok(_) => Ok(()),
+        other => Err(format!("MOV.B R0L,{:?} failed: {:?}", ea, other)),
+    }
+}
+
 pub fn execute(emu: &mut Emu, ops: &[Op]) -> Result<Vec<Obs>, String> {
+    execute_via(emu, ops, false)
+}
+
+/// `insns`: register writes are performed by guest instructions (addressing mode rotating with the op index)
+pub fn execute_via(emu: &mut Emu, ops: &[Op], insns: bool) -> Result<Vec<Obs>, String> {
     prepare(emu);
     let mut out = Vec::with_capacity(ops.len());
+    let via = |i: usize| if insns { 1 + (i % 4) as u8 } else { 0 };
+    let mut undo: Vec<(u32, u8)> = vec![];
     for (i, op) in ops.iter().enumerate() {
         let r = match *op {
             Op::Elapse(n) => {
@@ -126,21 +163,34 @@ pub fn execute(emu: &mut Emu, ops: &[Op]) -> Result<Vec<Obs>, String> {
                     Err(p) => Err(format!("panic: {}", p)),
                 }
             }
-            Op::Tcr(v) => emu.cpu.bus.write(TCR, v).map_err(|e| e.to_string()),
-            Op::Tcnt(v) => emu.cpu.bus.write(TCNT, v).map_err(|e| e.to_string()),
-            Op::Tcora(v) => emu.cpu.bus.write(TCORA, v).map_err(|e| e.to_string()),
-            Op::Tcorb(v) => emu.cpu.bus.write(TCORB, v).map_err(|e| e.to_string()),
+            Op::Tcr(v) => cpu_store(emu, TCR, v, via(i)),
+            Op::Tcnt(v) => cpu_store(emu, TCNT, v, via(i)),
+            Op::Tcora(v) => cpu_store(emu, TCORA, v, via(i)),
+            Op::Tcorb(v) => cpu_store(emu, TCORB, v, via(i)),
             Op::ClearFlags(mask, low) => {
                 let cur = emu.cpu.bus.read(TCSR).map_err(|e| e.to_string())?;
-                emu.cpu.bus.write(TCSR, (cur & 0xe0 & !mask) | (low & 0x1f)).map_err(|e| e.to_string())
+                cpu_store(emu, TCSR, (cur & 0xe0 & !mask) | (low & 0x1f), via(i))
             }
-            Op::Other(i, v) => emu.cpu.bus.write(OTHER_REGS[i as usize % OTHER_REGS.len()], v).map_err(|e| e.to_string()),
+            Op::Other(k, v) => cpu_store(emu, OTHER_REGS[k as usize % OTHER_REGS.len()], v, via(i)),
+            Op::Stray(a, v) => {
+                if let Some(old) = raw_get(&emu.cpu.bus, a) {
+                    undo.push((a, old));
+                }
+                let _ = emu.cpu.bus.write(a, v);
+                Ok(())
+            }
         };
         if let Err(e) = r {
             return Err(format!("op {} {:?} failed: {}", i, op, e));
         }
         let irqs = drain_irqs(emu)?;
         out.push(Obs { tcnt: emu.cpu.bus.read(TCNT).map_err(|e| e.to_string())?, tcsr: emu.cpu.bus.read(TCSR).map_err(|e| e.to_string())?, irqs });
+    }
+    for (a, old) in undo.into_iter().rev() {
+        raw_set(&mut emu.cpu.bus, a, old);
+    }
+    for k in 0..8 {
+        raw_set(&mut emu.cpu.bus, SCRATCH_CODE + k, baseline_byte(SCRATCH_CODE + k));
     }
     Ok(out)
 }
@@ -325,7 +375,7 @@ impl Model {
                 self.tcsr = (self.tcsr & 0xe0 & !mask) | (low & 0x1f);
                 self.expect_regs(op, obs)
             }
-            Op::Other(..) => self.expect_regs(op, obs),
+            Op::Other(..) | Op::Stray(..) => self.expect_regs(op, obs),
         }
     }
     fn expect_regs(&mut self, op: &Op, obs: &Obs) -> Result<(), String> {
@@ -449,6 +499,16 @@ fn build_history(e: &mut Ent) -> Vec<Op> {
                 tb = v;
                 ops.push(Op::Tcorb(v));
             }
+            15 if e.chance(1, 3) => {
+                let base = e.pick(&[TCR, TCSR, TCORA, TCORB, TCNT]);
+                let a = match e.below(4) {
+                    0 => base.wrapping_add(0x100 * (1 + e.below(4))),
+                    1 => base.wrapping_add(0x0100_0000 * (1 + e.below(255))),
+                    2 => base ^ (1u32 << (8 + e.below(24))),
+                    _ => base.wrapping_add(0x1_0000 * (1 + e.below(3))),
+                };
+                ops.push(Op::Stray(a, e.u8()))
+            }
             14 if e.chance(1, 2) => {
                 // another channel's register: a clock selection / compare value / counter of channel 1-3
                 let v = if e.chance(1, 2) { e.u8() } else { e.pick(&[0x01u8, 0x02, 0x03, 0x0b, 0x41, 0xff, 0x00]) };
@@ -501,7 +561,7 @@ fn resplit(ops: &[Op], e: &mut Ent) -> Vec<Op> {
 fn ops_json(ops: &[Op]) -> Value {
     json!({"kind": "timer-history", "ops": ops.iter().map(|o| match *o {
         Op::Elapse(n) => json!(["elapse", n]), Op::Tcr(v) => json!(["tcr", v]), Op::Tcnt(v) => json!(["tcnt", v]),
-        Op::Tcora(v) => json!(["tcora", v]), Op::Tcorb(v) => json!(["tcorb", v]), Op::ClearFlags(m, l) => json!(["clear", m, l]), Op::Other(i, v) => json!(["other", i, v]) }).collect::<Vec<_>>()})
+        Op::Tcora(v) => json!(["tcora", v]), Op::Tcorb(v) => json!(["tcorb", v]), Op::ClearFlags(m, l) => json!(["clear", m, l]), Op::Other(i, v) => json!(["other", i, v]), Op::Stray(a, v) => json!(["stray", a, v]) }).collect::<Vec<_>>()})
 }
 fn ops_from_json(v: &Value) -> Option<Vec<Op>> {
     Some(
@@ -518,6 +578,7 @@ fn ops_from_json(v: &Value) -> Option<Vec<Op>> {
                     "tcora" => Op::Tcora(a),
                     "tcorb" => Op::Tcorb(a),
                     "other" => Op::Other(a, o.get(2)?.as_u64()? as u8),
+                    "stray" => Op::Stray(o.get(1)?.as_u64()? as u32, o.get(2)?.as_u64()? as u8),
                     _ => Op::ClearFlags(a, o.get(2)?.as_u64()? as u8),
                 })
             })
@@ -569,7 +630,8 @@ pub fn judge_history(emu: &mut Emu, ops: &[Op], alt: Option<&[Op]>) -> Result<Su
         }
     };
     if let Some(alt) = alt {
-        let obs2 = match execute(emu, alt) {
+        // the re-partitioned history also takes the other road to the registers: guest instructions
+        let obs2 = match execute_via(emu, alt, true) {
             Ok(o) => o,
             Err(e) => {
                 cleanup(emu);
